@@ -38,10 +38,10 @@ Verdict(ev) ==
          \* physical orders of the leaf tables
          den  |-> want("den") => Den(t, ev.env) = ev.rows,
          denbag |-> want("denbag") =>
-                        ((BagDet(t, ev.env) /\ BagDet(t, RevEnv(ev.env)))
-                            => SameBag(Den(t, ev.env), ev.rows) /\ SameBag(Den(t, RevEnv(ev.env)), ev.rows)),
+                        ((BagDet(t, ev.env) /\ BagDet(t, RevEnvFor(t, ev.env)))
+                            => SameBag(Den(t, ev.env), ev.rows) /\ SameBag(Den(t, RevEnvFor(t, ev.env)), ev.rows)),
          denlist |-> want("denlist") =>
-                        ((ListDet(t, ev.env) /\ ListDet(t, RevEnv(ev.env)))
+                        ((ListDet(t, ev.env) /\ ListDet(t, RevEnvFor(t, ev.env)))
                             => Den(t, ev.env) = ev.rows),
          meta |-> want("meta") => \A n \in Nodes(t) : NodeOK(n, ev.env),
          coh  |-> want("coh") => MarkerCoherent(t) /\ (KindOf(Eng(t)) = "sql" => Conform(t) = t) ]
